@@ -6,7 +6,7 @@ tag=$1
 src=/root/scratch/$tag/verif
 cd /verif
 echo "== new/changed files from $tag"
-rsync -a -i --exclude '*.vo' --exclude '*.vok' --exclude '*.vos' --exclude '*.glob' --exclude '.*.aux' \
+rsync -a -i --ignore-existing --exclude '*.vo' --exclude '*.vok' --exclude '*.vos' --exclude '*.glob' --exclude '.*.aux' \
   --exclude work --exclude .git --exclude 'coq/Makefile*' --exclude 'coq/.Makefile.d' --exclude '.lia.cache' \
   --exclude 'coq/extract/model.*' --exclude 'coq/extract/*.cm*' --exclude 'coq/extract/*.o' --exclude 'coq/extract/runmodel' \
   --exclude 'coq/extract/Extract.*' --exclude 'coq/extract/driver.ml' \
